@@ -4,6 +4,15 @@ C02.rb      MessageBuilder::push: every failure exit truncates to the length
             saved before the append; success needs append ok, limit ok, count ok;
             count increment only after the limit check.
 C02.count   section builders increment the header count of their own section.
+C02.rewind  going back to an earlier section drops every later section: each
+            backward conversion of a section builder reaches `rewind` of every
+            section behind the target, and each `rewind` truncates to its own
+            start and zeroes its own header count.
+C02.hdr     builders handed to a push closure that write the *message header*
+            in place (OptBuilder::set_rcode) are undone when the push fails:
+            the section builder restores, on the failure outcome of push, every
+            header field such a method sets -- truncating the target does not
+            reach the header.
 C02.shim    StreamTarget: every length-changing call on the inner target is
             followed by update_shim on all success paths; shim arithmetic.
 C02.ptr14   compressors: every position that can be OR-ed with 0xC000 was
@@ -33,13 +42,113 @@ def run(ctx):
     )
     rule_rb(ctx, F)
     rule_count(ctx, F)
+    rule_rewind(ctx, F)
+    rule_hdr(ctx, F)
     rule_shim(ctx, F)
     rule_ptr14(ctx, F)
     rule_trunc(ctx, F)
     rule_prefix(ctx, F)
+    # "parses back ... in the right sections": moving on to a later section skips the records in between;
+    # skip and parse must accept the same names (shared with C01)
+    import c01
+    c01.rule_skip(ctx, F)
 
 
 # ---------------------------------------------------------------------------
+
+LEVELS = [("QuestionBuilder", "set_qdcount"), ("AnswerBuilder", "set_ancount"),
+          ("AuthorityBuilder", "set_nscount"), ("AdditionalBuilder", "set_arcount")]
+TARGET_LEVEL = {"builder": -1, "question": 0, "answer": 1, "authority": 2, "additional": 3}
+
+
+def rule_rewind(ctx, F):
+    R = "C02.rewind"
+    ctx.floor(R, 14)
+    scope = re.compile(r"^<?base::message_builder::")
+    # each rewind: truncate(self.start) and its own count := 0
+    for lvl, (bname, setter) in enumerate(LEVELS):
+        rb = F.body("base::message_builder::%s::<Target>::rewind" % bname)
+        if not ctx.anchor(R, "%s::rewind" % bname, rb):
+            continue
+        sets = [(bb, tt) for bb, tt in rb.calls() if tt["fn"] and "HeaderCounts::set_" in tt["fn"]]
+        names = [tt["fn"].split("::")[-1] for _, tt in sets]
+        zero = all(const_value(deep_strip(rb.term_of_operand(tt["args"][1]))) == 0 for _, tt in sets)
+        ctx.ob(R, rb, "%s::rewind zeroes its own count" % bname, names == [setter] and zero,
+               "%s::rewind must set exactly %s(0) (found %s)" % (bname, setter, names))
+        tr = [tt for _, tt in rb.calls() if tt["fn"] and tt["fn"].endswith("::truncate")]
+        to_start = any("start" in show(deep_strip(rb.term_of_operand(tt["args"][1])))
+                       or (lvl == 0 and (const_value(deep_strip(rb.term_of_operand(tt["args"][1]))) == 12
+                                         or "size_of" in show(deep_strip(rb.term_of_operand(tt["args"][1]))))) for tt in tr)
+        ctx.ob(R, rb, "%s::rewind truncates to the start of its section" % bname, bool(tr) and to_start,
+               "%s::rewind does not truncate the target to self.start" % bname)
+    # each backward conversion reaches the rewind of every section behind the target
+    for lvl, (bname, _) in enumerate(LEVELS):
+        for meth, tl in TARGET_LEVEL.items():
+            if tl >= lvl:
+                continue
+            cb = F.body("base::message_builder::%s::<Target>::%s" % (bname, meth))
+            if cb is None:
+                if lvl - tl >= 1 and not (bname == "QuestionBuilder" and meth == "builder"):
+                    ctx.anchor(R, "%s::%s" % (bname, meth), False)
+                continue
+            reached = {tt["fn"] for _, _, tt in sigs.callees_deep(F, cb, depth=4, scope=scope) if tt["fn"]}
+            need = ["base::message_builder::%s::<Target>::rewind" % LEVELS[k][0] for k in range(max(tl + 1, 0), lvl + 1)]
+            if tl == -1:
+                # `builder()` also has to drop the questions
+                need = ["base::message_builder::%s::<Target>::rewind" % LEVELS[k][0] for k in range(0, lvl + 1)]
+            missing = [x.split("::")[2] for x in need if x not in reached]
+            ctx.ob(R, cb, "%s::%s drops every later section" % (bname, meth), not missing,
+                   "%s::%s() does not go through rewind() of %s: the octets may be cut by an outer truncate, but the header "
+                   "count of that section is not reset -- the message announces records it does not contain"
+                   % (bname, meth, ", ".join(missing)))
+
+
+def rule_hdr(ctx, F):
+    R = "C02.hdr"
+    ctx.floor(R, 1)
+    # methods of builders living inside a push closure that obtain the mutable message header
+    writers = {}
+    for p, b in F.bodies.items():
+        m = re.match(r"^base::message_builder::(OptBuilder|\w+Builder)::<.*>::(\w+)$", p)
+        if not m:
+            continue
+        if not any((tt["fn"] or "").endswith("Header::for_message_slice_mut") for _, tt in b.calls()):
+            continue
+        sets = sorted({tt["fn"].split("::")[-1] for _, tt in b.calls()
+                       if tt["fn"] and re.search(r"header::Header::set_\w+$", tt["fn"])})
+        if sets:
+            writers[(m.group(1), m.group(2))] = sets
+    if not ctx.anchor(R, "in-place header writers among the push-closure builders", bool(writers)):
+        return
+    for (bname, meth), sets in sorted(writers.items()):
+        # the section builder method that creates this builder inside MessageBuilder::push
+        hosts = []
+        for p, b in F.bodies.items():
+            if not re.match(r"^base::message_builder::\w+Builder::<Target>::\w+$", p):
+                continue
+            pushes = [(bb, tt) for bb, tt in b.calls() if (tt["fn"] or "").endswith("MessageBuilder::<Target>::push")]
+            if not pushes:
+                continue
+            made = any(re.search(r"message_builder::%s::<.*>::new$" % bname, tt["fn"] or "")
+                       for _, _, tt in sigs.callees_deep(F, b, depth=1, scope=re.compile(r"^<?base::message_builder::")))
+            if made:
+                hosts.append((b, pushes))
+        if not ctx.anchor(R, "section builder method that hands out %s" % bname, bool(hosts)):
+            continue
+        for hb, pushes in hosts:
+            pb = pushes[0][0]
+            failed = [bb for bb in hb.reachable_blocks() if pb in failed_calls(hb, bb, F)]
+            restored = set()
+            for bb in failed:
+                tt = hb.blocks[bb]["t"]
+                if tt["k"] == "call" and tt["fn"] and re.search(r"header::Header::set_\w+$", tt["fn"]):
+                    restored.add(tt["fn"].split("::")[-1])
+            missing = [s for s in sets if s not in restored]
+            ctx.ob(R, hb, "%s::%s is undone when the push fails" % (bname, meth), not missing,
+                   "%s::%s writes the message header in place (%s) inside the closure of MessageBuilder::push; when the push "
+                   "fails (no space, push limit) %s truncates the target but does not restore the header: a failed push "
+                   "leaves the octets changed" % (bname, meth, ", ".join(sets), hb.path.split("::")[-1]), hb.where(pb))
+
 
 def _calls_on_param(b, argn, rx=r"FnOnce<.*>>::call_once|::call_once$"):
     out = []
